@@ -16,7 +16,7 @@ RULE = ("block size 0 x {READ/WRITE(10,12,16), WRITE SAME(10,16), ATA PASS-THROU
         "tuples with at most 1 deviation, through the constructor and through the facade on both transports; all 256 opcode values into "
         "init_cdb and three constructors; PERSISTENT RESERVE IN service actions -1..40 through the facade; EXTENDED COPY LID1/LID4 with each "
         "unknown key in CSCD and segment descriptors, unknown / valid-unimplemented / implemented type codes, LU ID TYPE 0..3, unknown device "
-        "types, codes given by name in the wrong field (before and after a valid use of the same names); TransportIDs over protocols x format flag x session id. Every case also states whether it must be accepted, so that refusing "
+        "types, codes given by name in the wrong field (before and after a valid use of the same names); TransportIDs over protocols x format flag x session id; opcode refusal (init_cdb, marshall_cdb, constructor) racing with a second thread that builds a valid TEST UNIT READY / READ(10) / READ(16): all schedules with at most 2 preemptions at every source line of the library. Every case also states whether it must be accepted, so that refusing "
         "valid input is reported too. Non-trivial = the request is invalid; distinct = distinct (kind, case).")
 ASSUMPTIONS = [
     "the 'specific error' is identified by exception class name (the metaclass mints MissingBlocksizeException/OpcodeException per class): MissingBlocksizeException, OpcodeException, ValueError; NotImplementedError is accepted only for descriptor type codes the standard defines but the library documents as not implemented",
@@ -31,7 +31,63 @@ FACADE_OF = {"Read10": "read10", "Read12": "read12", "Read16": "read16", "Write1
 def partitions(tier):
     parts = [["blocksize", n] for n in BLOCK_CLASSES + ["ATAPassThrough12", "ATAPassThrough16"]]
     parts += [["opcode"], ["prin"], ["xcopy", 4], ["xcopy", 5], ["tid"]]
+    parts += [["race", inv, valid] for inv in RACE_INVALID for valid in RACE_VALID]
     return parts
+
+
+# refusal of an opcode without a fixed CDB length while ANOTHER thread marshalls a valid command: every schedule with at most 2 preemptions
+RACE_INVALID = ["init_cdb", "marshall", "ctor"]
+RACE_VALID = ["TestUnitReady", "Read10", "Read16"]
+
+
+def race_bodies(inv, valid):
+    from pyscsi.pyscsi.scsi_command import SCSICommand
+    from pyscsi.pyscsi.scsi_opcode import OpCode
+    tur, cls = CS.get_class("TestUnitReady"), CS.get_class(valid)
+    set_ = harness.opcode_set("sbc")
+    good = {"TestUnitReady": lambda: bytes(tur(set_.TEST_UNIT_READY).cdb),
+            "Read10": lambda: bytes(cls(set_.READ_10, 512, 0x01020304, 5).cdb),
+            "Read16": lambda: bytes(cls(set_.READ_16, 512, 0x0102030405060708, 5).cdb)}[valid]
+    bad = {"init_cdb": lambda: SCSICommand.init_cdb(OpCode("X", 0x7F, {})),
+           "marshall": lambda: tur.marshall_cdb({"opcode": 0x7F}),
+           "ctor": lambda: tur(OpCode("X", 0xC1, {}))}[inv]
+    return [lambda: outcome_of(bad), lambda: outcome_of(good)]
+
+
+def run_race(inv, valid, choices, acc=None):
+    import os
+
+    from vf import sched
+    pre = os.path.join(os.environ.get("VF_REPO", "/repo"), "pyscsi") + "/"
+    want_good = race_bodies(inv, valid)[1]()
+
+    def judge(x):
+        v = []
+        where = "refusing an opcode through %s while another thread builds %s, switches at %r" % (
+            inv, valid, [(i, x.points[i][2]) for i, c in enumerate(x.choices) if c][:4])
+        if x.errors[0] is not None or x.errors[1] is not None:
+            v.append(("race/harness", "%s: %r" % (where, x.errors)))
+            return v
+        v += expect_refusal(x.results[0], ["OpcodeException"], where, "race/%s" % inv)
+        if repr(x.results[1]) != repr(want_good):
+            v.append(("race/valid_disturbed/%s" % valid, "%s: the valid command came out as %r, alone %r" % (where, x.results[1], want_good)))
+        return v
+
+    if choices is not None:
+        return judge(sched.Execution(race_bodies(inv, valid), choices, pre).run())
+
+    def on_exec(x):
+        case = ["race", inv, valid, list(x.choices)]
+        acc.case(case, nontrivial=any(x.choices), key=(inv, valid, tuple(i for i, c in enumerate(x.choices) if c), tuple(c for c in x.choices if c)))
+        acc.transitions += 1
+        acc.traces += 1
+        for k, w in judge(x):
+            acc.violation(k, w, case)
+        acc.outcome(("race", inv, valid, repr(x.results)))
+    n, capped = sched.explore(lambda: race_bodies(inv, valid), pre, 2, on_exec, None, 50000)
+    if capped:
+        acc.caps.append("schedule cap hit for race %s/%s" % (inv, valid))
+    acc.add("schedules", n)
 
 
 def outcome_of(fn):
@@ -73,6 +129,8 @@ def seg_b2b(v):
 
 def run_case(case, obs=None):
     install.ensure()
+    if case[0] == "race":
+        return run_race(case[1], case[2], case[3])
     kind = case[0]
     if kind == "blocksize":
         _, name, via, point, bs = case[:5]
@@ -333,6 +391,9 @@ def run_partition(part, tier, seed):
         acc.outcome((case[0], tuple(obs), tuple(k for k, _ in v)))
 
     kind = part[0]
+    if kind == "race":
+        run_race(part[1], part[2], None, acc)
+        return acc
     if kind == "blocksize":
         name = part[1]
         for point, r in CS.points(name, 1 if name not in S.ATA_LBA_BYTES else 2, 1 << 16):
